@@ -457,6 +457,12 @@ def expand_run_space(
 
     # Combine all blocks
     if not all_block_runs:
+        # A specification without blocks still yields one (empty) run
+        if 1 > spec.max_runs:
+            raise RunSpaceMaxRunsExceededError(
+                actual_runs=1,
+                max_runs=spec.max_runs,
+            )
         combined_runs: List[Dict[str, Any]] = [{}]
     elif spec.combine == "combinatorial":
         if any(len(runs) == 0 for runs in all_block_runs):
